@@ -106,6 +106,67 @@ Theorem C01_slice_kernel_matches_source : forall start stop step s p x m, 1 <= s
 Proof. exact bridge_slice_update. Qed.
 Print Assumptions C01_slice_kernel_matches_source.
 
+(* ---- the update methods of the node classes are the ones regenerated from the source on this run ----------------
+   Gen/KN_<class>.v is written by harness/gen_nodes.py from the python AST of streamz/core.py (statement by statement,
+   monad of Base/MiniPy.v); Base/BridgeNodes.v proves that it is the update function of Sync/Nodes.v.
+   `run` form: the method also never raises after an effect (RLate); `update` form: the model's option (list action). *)
+From SZ Require Import Base.MiniPy Base.BridgeNodes.
+Theorem C01_update_accumulate_matches_source : forall f start rs ws s p x m,
+  Gen.KN_accumulate.gen_update_accumulate f rs ws s p x m = update (KAccum f start rs ws) s p x m.
+Proof. exact bridge_update_accumulate. Qed.
+Print Assumptions C01_update_accumulate_matches_source.
+Theorem C01_run_accumulate_matches_source : forall f start rs ws s p x m,
+  Gen.KN_accumulate.gen_run_accumulate f rs ws s p x m = of_option (update (KAccum f start rs ws) s p x m).
+Proof. exact bridge_run_accumulate. Qed.
+Print Assumptions C01_run_accumulate_matches_source.
+
+Theorem C01_update_map_matches_source : forall f s p x m,
+  Gen.KN_map.gen_update_map f s p x m = update (KMap f) s p x m.
+Proof. exact bridge_update_map. Qed.
+Print Assumptions C01_update_map_matches_source.
+Theorem C01_run_map_matches_source : forall f s p x m,
+  Gen.KN_map.gen_run_map f s p x m = of_option (update (KMap f) s p x m).
+Proof. exact bridge_run_map. Qed.
+Print Assumptions C01_run_map_matches_source.
+
+Theorem C01_update_filter_matches_source : forall f s p x m,
+  Gen.KN_filter.gen_update_filter f s p x m = update (KFilter f) s p x m.
+Proof. exact bridge_update_filter. Qed.
+Print Assumptions C01_update_filter_matches_source.
+Theorem C01_run_filter_matches_source : forall f s p x m,
+  Gen.KN_filter.gen_run_filter f s p x m = of_option (update (KFilter f) s p x m).
+Proof. exact bridge_run_filter. Qed.
+Print Assumptions C01_run_filter_matches_source.
+
+(* starmap: self.args is part of the model's function symbol, i.e. () here *)
+Theorem C01_update_starmap_matches_source : forall f s p x m,
+  Gen.KN_starmap.gen_update_starmap f [] s p x m = update (KStarmap f) s p x m.
+Proof. exact bridge_update_starmap. Qed.
+Print Assumptions C01_update_starmap_matches_source.
+Theorem C01_run_starmap_matches_source : forall f s p x m,
+  Gen.KN_starmap.gen_run_starmap f [] s p x m = of_option (update (KStarmap f) s p x m).
+Proof. exact bridge_run_starmap. Qed.
+Print Assumptions C01_run_starmap_matches_source.
+
+Theorem C01_update_pluck_matches_source : forall pk s p x m,
+  Gen.KN_pluck.gen_update_pluck pk s p x m = update (KPluck pk) s p x m.
+Proof. exact bridge_update_pluck. Qed.
+Print Assumptions C01_update_pluck_matches_source.
+Theorem C01_run_pluck_matches_source : forall pk s p x m,
+  Gen.KN_pluck.gen_run_pluck pk s p x m = of_option (update (KPluck pk) s p x m).
+Proof. exact bridge_run_pluck. Qed.
+Print Assumptions C01_run_pluck_matches_source.
+
+Theorem C01_update_union_matches_source : forall s p x m,
+  Gen.KN_union.gen_update_union s p x m = update KUnion s p x m.
+Proof. exact bridge_update_union. Qed.
+Print Assumptions C01_update_union_matches_source.
+Theorem C01_update_Stream_matches_source : forall s p x m,
+  Gen.KN_Stream.gen_update_Stream s p x m = update KSource s p x m.
+Proof. exact bridge_update_Stream. Qed.
+Print Assumptions C01_update_Stream_matches_source.
+(* ---- end of the node bridges ------------------------------------------------------------------------------------ *)
+
 (* ---- generated by harness/mkprops_sync.py: begin ---- *)
 From SZ Require Sync.NodeSem2.
 Section G_sem_accumulate_full.
